@@ -338,9 +338,9 @@ int c01_run(const char *tier) {
 	rep_note("c01.shrink: %ld histories capacity A, two sends, smaller capacity B, third send", rep_get("shrink_cases"));
 	/* E1 */
 	static const char *vn[] = {"senders+flush", "senders+flush+autoflush(early wake budget 2)", "senders+flush+receiver capacity change"};
-	for (int v = 0; v < 3; v++) {
-		uint8_t param[1] = {(uint8_t) v}; char label[96]; snprintf(label, sizeof label, "c01.sched %s", vn[v]);
-		e1_spec_t s = { .harness = "c01.sched", .param = param, .nparam = 1, .bound = thorough ? 3 : 2, .label = label };
+	for (int v6 = 0; v6 < 6; v6++) { int v = v6 % 3, up = v6 >= 3;      /* second round: a scheduling point after every unlock as well, one preemption less */
+		uint8_t param[1] = {(uint8_t) v}; char label[128]; snprintf(label, sizeof label, "c01.sched %s%s", vn[v], up ? " (points after unlocks)" : "");
+		e1_spec_t s = { .harness = "c01.sched", .param = param, .nparam = 1, .bound = (thorough ? 3 : 2) - up, .label = label, .unlock_points = up };
 		e1_explore(&s);
 		long ex = 0; for (int k = 0; k < 8; k++) ex += s.schedules_by_cost[k];
 		execs += ex; states += s.distinct_outcomes; transitions += s.choice_points; if (!s.exhaustive) exhaustive = 0;
